@@ -1,5 +1,7 @@
 (* C25 -- the six places where a migration reads a JSON value out of a Text cell, as functions from the parsed
-   value to "returns / raises which exception".  Only the raise behaviour is modelled (result type res unit);
+   value to "returns / raises which exception".  The *_raw functions are the operations the migrations perform
+   on the value (they raise off the expected shape); the *_site functions are the sites as they are in the source
+   since fix 5a4118c: a guard (safe_parse_dict / isinstance / try-except) in front of the raw operation.  Only the raise behaviour is modelled (result type res unit);
    what the migration then does with the value is not.  Hand-written from migrations.py (15, 16, 34, 35, 45) and
    summary._copy_widget_options (29); compared on every run with the real migrations run on one-cell documents
    (harness/props/c25.py, stream "sites").  The text -> value step is Python's json.loads (not modelled). *)
@@ -48,7 +50,7 @@ Definition ok : res unit := Ok tt.
 
 (* migration 15:  filter_spec = safe_parse(s.filterSpec);
                   if filter_spec and str(f.colRef) in filter_spec: json.dumps(filter_spec[str(f.colRef)]) *)
-Definition m15_site (key : str) (j : json) : res unit :=
+Definition m15_raw (key : str) (j : json) : res unit :=
   if negb (truthy j) then ok else
   match j with
   | JObj _ => ok
@@ -60,7 +62,7 @@ Definition m15_site (key : str) (j : json) : res unit :=
 
 (* migration 16, convert_visible_col:  parsed_options.pop('visibleCol', None); if not v: return;
                                         columns_by_id.get((target_table.id, v)) *)
-Definition m16_site (j : json) : res unit :=
+Definition m16_raw (j : json) : res unit :=
   match j with
   | JObj m =>
       match lookup (zs "visibleCol") m with
@@ -73,13 +75,13 @@ Definition m16_site (j : json) : res unit :=
   end.
 
 (* migration 29 -> summary._copy_widget_options (non-empty text that parses):  options.items() *)
-Definition m29_site (j : json) : res unit := match j with JObj _ => ok | _ => Err AttrErr end.
+Definition m29_raw (j : json) : res unit := match j with JObj _ => ok | _ => Err AttrErr end.
 
 (* migration 34:  safe_parse(s.options).get('filterBar', False) *)
-Definition m34_site (j : json) : res unit := match j with JObj _ => ok | _ => Err AttrErr end.
+Definition m34_raw (j : json) : res unit := match j with JObj _ => ok | _ => Err AttrErr end.
 
 (* migration 35:  if not acl_formula or acl_formula[0] != 'Comment': continue;  acl_formula[2] *)
-Definition m35_site (j : json) : res unit :=
+Definition m35_raw (j : json) : res unit :=
   if negb (truthy j) then ok else
   match j with
   | JArr (x :: rest) => if is_str (zs "Comment") x then (if (2 <=? length rest)%nat then ok else Err IndexErr) else ok
@@ -95,21 +97,20 @@ Definition BIG : Z := 2 ^ 1000.
 Definition OVER : Z := 1000 * 2 ^ 1024.
 Arguments BIG : simpl never.
 Arguments OVER : simpl never.
-Definition ms_site (v : option json) : res unit :=
+Definition ms_raw (v : option json) : res unit :=
   match v with
   | None | Some JNull | Some (JBool _) => ok
   | Some (JNum (JInt z)) =>
-      if Z.abs z <? BIG then ok
-      else if OVER <=? Z.abs z then Err OverflowErr      (* int too large to convert to float *)
-      else Err DomainErr                                            (* rounding boundary: not modelled *)
+      if Z.abs z <? OVER then ok               (* between BIG and OVER the rounding decides; the guarded site *)
+      else Err OverflowErr                     (* returns either way.  int too large to convert to float *)
   | Some (JNum (JFlt bits)) =>
       if flt_is_nan bits then Err ValueErr else if flt_is_inf bits then Err OverflowErr else ok
   | Some (JStr _) | Some (JArr _) | Some (JObj _) => Err TypeErr
   end.
 
-Definition m45_site (j : json) : res unit :=
+Definition m45_raw (j : json) : res unit :=
   match j with
-  | JObj m => bind (ms_site (lookup (zs "timeCreated") m)) (fun _ => ms_site (lookup (zs "timeUpdated") m))
+  | JObj m => bind (ms_raw (lookup (zs "timeCreated") m)) (fun _ => ms_raw (lookup (zs "timeUpdated") m))
   | _ => ok
   end.
 
@@ -143,6 +144,50 @@ Definition ws_m45 (j : json) : bool :=
   | _ => true
   end.
 
+(* ---- the sites as guarded in the source ---- *)
+Definition as_obj (j : json) : json := match j with JObj _ => j | _ => JObj [] end.   (* safe_parse_dict *)
+
+(* migration 15:  specs = safe_parse_dict(s.filterSpec) *)
+Definition m15_site (key : str) (j : json) : res unit := m15_raw key (as_obj j).
+
+(* migration 16:  if not isinstance(parsed_options, dict): return None;  v = pop('visibleCol', None);
+                  if not v or not isinstance(v, str): return None *)
+Definition m16_site (j : json) : res unit :=
+  match j with
+  | JObj m => match lookup (zs "visibleCol") m with
+              | Some (JStr s) => if truthy (JStr s) then m16_raw j else ok
+              | _ => ok
+              end
+  | _ => ok
+  end.
+
+(* summary._copy_widget_options:  if not isinstance(options, dict): return original *)
+Definition m29_site (j : json) : res unit := match j with JObj _ => m29_raw j | _ => ok end.
+
+(* migration 34:  safe_parse_dict(s.options).get('filterBar', False) *)
+Definition m34_site (j : json) : res unit := m34_raw (as_obj j).
+
+(* migration 35:  if not isinstance(acl_formula, list) or len(acl_formula) < 3 or acl_formula[0] != 'Comment': continue *)
+Definition m35_site (j : json) : res unit :=
+  match j with
+  | JArr (x :: rest) => if (2 <=? length rest)%nat && is_str (zs "Comment") x then m35_raw j else ok
+  | _ => ok
+  end.
+
+(* migration 45, ms_to_seconds:  try: int(ms / 1000)  except (TypeError, ValueError, OverflowError): 0
+   (None / 1000 is a TypeError: same 0 as before) *)
+Definition ms_site (v : option json) : res unit :=
+  match ms_raw v with
+  | Ok _ => ok
+  | Err c => if Z.eqb c TypeErr || Z.eqb c ValueErr || Z.eqb c OverflowErr then ok else Err c
+  end.
+
+Definition m45_site (j : json) : res unit :=
+  match j with
+  | JObj m => bind (ms_site (lookup (zs "timeCreated") m)) (fun _ => ms_site (lookup (zs "timeUpdated") m))
+  | _ => ok
+  end.
+
 (* one generated case: (site number, key for site 15, parsed value, what the real migration did, WELL_SHAPED) *)
 Definition site_fn (n : Z) (key : str) (j : json) : res unit :=
   if Z.eqb n 15 then m15_site key j else if Z.eqb n 16 then m16_site j else if Z.eqb n 29 then m29_site j
@@ -156,3 +201,8 @@ Definition check_site (n : Z) (key : str) (j : json) (raised : Z) (ws_py : bool)
   | Ok _ => Z.eqb raised 0
   | Err c => Z.eqb raised c
   end && Bool.eqb (ws_fn n j) ws_py.
+
+(* the operations without their guards, for the regression examples *)
+Definition raw_fn (n : Z) (key : str) (j : json) : res unit :=
+  if Z.eqb n 15 then m15_raw key j else if Z.eqb n 16 then m16_raw j else if Z.eqb n 29 then m29_raw j
+  else if Z.eqb n 34 then m34_raw j else if Z.eqb n 35 then m35_raw j else m45_raw j.
